@@ -12,7 +12,7 @@
   `CoreVM.runToCompletion`; the steps that are not refined (instance creation + `_start_flow`, new-action / `Start` / conflict
   resolution sites, `StopFlow(flow_id=…)`, head movement in general) are not in the relation.
 -/
-import NemoVerif.Lemmas.LifetimeCoreVM8
+import NemoVerif.Lemmas.LifetimeCoreVM8b
 namespace NemoVerif.Lifetime.Refine
 open NemoVerif NemoVerif.CoreVM NemoVerif.CoreIndex NemoVerif.Lifetime
 
@@ -33,6 +33,16 @@ inductive RefinedStep : VM → VM → Prop
       ¬ (hd.pos ≥ cfg.elements.size ∨ hd.status = .inactive) → cfg.elements[hd.pos]! = .label "start_new_flow_instance" →
       NameRO f (hd.pos + 1) →
       slideStep fuel f h vm = .ok r vm' → RefinedStep vm vm'
+  | beginScope (fuel : Nat) (f : FUid) (h : HUid) (cfg : FlowCfg) (hd : Head) (name : String) (r : Bool × List Key) (vm vm' : VM) :
+      cfgOfInst f vm = .ok cfg vm → getHead? (f, h) vm = .ok (some hd) vm →
+      ¬ (hd.pos ≥ cfg.elements.size ∨ hd.status = .inactive) → cfg.elements[hd.pos]! = .beginScope name →
+      NameRO f (hd.pos + 1) →
+      slideStep fuel f h vm = .ok r vm' → RefinedStep vm vm'
+  | other (fuel : Nat) (f : FUid) (h : HUid) (cfg : FlowCfg) (hd : Head) (r : Bool × List Key) (vm vm' : VM) :
+      cfgOfInst f vm = .ok cfg vm → getHead? (f, h) vm = .ok (some hd) vm →
+      ¬ (hd.pos ≥ cfg.elements.size ∨ hd.status = .inactive) → cfg.elements[hd.pos]! = .other →
+      NameRO f (hd.pos + 1) →
+      slideStep fuel f h vm = .ok r vm' → RefinedStep vm vm'
   | stopEvent (fuel : Nat) (event : Event) (uid : String) (r : Event × List String) (vm vm' : VM) :
       event.ev.name = "StopFlow" → lookupArg "flow_instance_uid" event.ev.args = some (.str uid) →
       processInternalEvent fuel event vm = .ok r vm' → RefinedStep vm vm'
@@ -49,7 +59,7 @@ inductive RefinedStep : VM → VM → Prop
 
 /-- the operations of the Lifetime machine that refined CoreVM steps map to -/
 def Covered : IOp → Prop
-  | .abort .. | .finish .. | .endScope .. | .label .. | .reactivate .. => True
+  | .abort .. | .finish .. | .endScope .. | .label .. | .reactivate .. | .frame .. => True
   | _ => False
 
 theorem okOr_ok (s t : State) (r : Except Err State) (h : r = .ok t) : okOr s r = t := by rw [h]; rfl
@@ -77,6 +87,28 @@ theorem refinedStep_is_op (hν : Function.Injective ν) (hφ : Function.Injectiv
       obtain ⟨t, ht, ha, w'⟩ := corevm_label_is_op ν φ hν f h hd.pos vm vm1 hw hro hv
       cases hr
       exact ⟨w', [.label (ν f)], Nat.le_refl _, (by intro op hop; simp only [List.mem_singleton] at hop; subst hop; trivial), by simp only [List.foldl, applyOp, okOr_ok _ t _ ht]; exact ha⟩
+  | beginScope fuel f h cfg hd name r _ _ hcfg hhd hpos hel hro hr =>
+    rw [slideStep_beginScope fuel f h vm cfg hd name hcfg hhd hpos hel] at hr
+    simp only [bind, EStateM.bind] at hr
+    cases hv : vmBeginScope f h name hd.pos vm with
+    | error e s => rw [hv] at hr; cases hr
+    | ok u vm1 =>
+      rw [hv] at hr
+      obtain ⟨x, _, w', ha⟩ := corevm_beginScope_is_op ν φ hν f h name hd.pos vm vm1 hw hro hv
+      cases hr
+      exact ⟨w', [.frame (ν f) (absFlow ν φ vm f x).heads
+          (if (OMap.lookup name x.scopes).isNone then (absFlow ν φ vm f x).scopes ++ [(ν name, [], [])] else (absFlow ν φ vm f x).scopes)],
+        Nat.le_refl _, (by intro op hop; simp only [List.mem_singleton] at hop; subst hop; trivial), ha⟩
+  | other fuel f h cfg hd r _ _ hcfg hhd hpos hel hro hr =>
+    rw [slideStep_other fuel f h vm cfg hd hcfg hhd hpos hel] at hr
+    simp only [bind, EStateM.bind] at hr
+    cases hv : setHeadPos (f, h) (hd.pos + 1) vm with
+    | error e s => rw [hv] at hr; cases hr
+    | ok u vm1 =>
+      rw [hv] at hr
+      obtain ⟨ha, w'⟩ := corevm_other_frame ν φ f h hd.pos vm vm1 hw hro hv
+      cases hr
+      exact ⟨w', [], Nat.zero_le _, (by intro op hop; cases hop), by rw [ha]; rfl⟩
   | stopEvent fuel event uid r _ _ hname huid hr =>
     obtain ⟨_, t, ht, ha, w'⟩ := corevm_stopflow_event_is_op ν φ hν hφ fuel event vm vm' uid r hname huid hw hr
     refine ⟨w', ?_⟩
@@ -153,6 +185,11 @@ theorem flowInv_step_covered (s : State) (op : IOp) (hi : FlowInv s) (hc : Cover
     simp only [applyOp]
     split
     · next s' r h => exact reactivate_flowInv hi fid known act hasInst source _ s' r h
+    · exact hi
+  | frame u heads scopes =>
+    simp only [applyOp]
+    split
+    · next f hf => exact hi.of_core rfl (core_setFlow s u f _ hf rfl)
     · exact hi
   | _ => exact absurd hc (by simp [Covered])
 
